@@ -1,9 +1,9 @@
-(* Obligation C20/lognormal_params_mv_roundtrip.  Statement as printed by Coq from Inferno.C20.DistProofs; proof by reference.
+(* Obligation C20/lognormal_params_mv_roundtrip.  Statement as printed by Coq from Inferno.C20.DistLogNormal; proof by reference.
    This file contains nothing else, so the statement cannot be weakened quietly. *)
 From Coq Require Import Reals List ZArith Bool.
 From Coquelicot Require Import Coquelicot.
 From Flocq Require Import Core.Raux.
-From Inferno Require Import Base.Num Base.NumR C20.Model C20.Spec C20.DistProofs.
+From Inferno Require Import Base.Num Base.NumR Gen.Distributions C20.Model C20.Spec C20.DistLogNormal.
 Import ListNotations.
 Open Scope R_scope.
 Theorem lognormal_params_mv_roundtrip : forall m v : R,
@@ -11,5 +11,5 @@ Theorem lognormal_params_mv_roundtrip : forall m v : R,
   0 <= v ->
   let p := lognormal_params_mv RN m v in
   lognormal_mean RN (fst p) (snd p) = m /\ lognormal_variance RN (fst p) (snd p) = v.
-Proof. exact (@Inferno.C20.DistProofs.lognormal_params_mv_roundtrip). Qed.
+Proof. exact (@Inferno.C20.DistLogNormal.lognormal_params_mv_roundtrip). Qed.
 Print Assumptions lognormal_params_mv_roundtrip.
